@@ -21,6 +21,7 @@ type hgen struct {
 	adds   map[string]int
 	ops    []string
 	slash  bool
+	shapes bool // deliveries with empty / long metadata (tags from 400 on, see shapeOf)
 }
 
 func (h *hgen) canon() string {
@@ -108,6 +109,9 @@ func (h *hgen) wire(name string) string {
 func (h *hgen) add() {
 	mb := h.canon()
 	tag := h.g.Intn(400)
+	if h.shapes && h.g.Chance(0.3) {
+		tag = 400 + h.g.Intn(56) // empty / long metadata (shapeOf)
+	}
 	date := 1700000000000 + int64(h.g.Intn(100000000))
 	h.ops = append(h.ops, fmt.Sprintf("a:%s:%d:%d:%d", vh.HS(mb), date, tag, len(buildRaw(tag))))
 	h.adds[mb]++
@@ -296,8 +300,55 @@ func genAttach(g *vh.Gen) {
 	}
 }
 
+// genMeta: messages whose metadata has EMPTY or long parts — no recipients, an empty sender address, an empty
+// subject, one empty recipient, 60 recipients — next to plain ones, then plain listings (no query parameters)
+// through the API and the client, and every message fetched by id through the API, the client and the web UI:
+// a listing is exactly the mailbox, whatever the metadata looks like.
+func genMeta(g *vh.Gen) {
+	for i := 0; i < g.N(10, 400); i++ {
+		mbs := []string{"alpha", "a.b"}
+		adds := map[string]int{}
+		var ops []string
+		n := 3 + g.Intn(5)
+		for j := 0; j < n; j++ {
+			mb := mbs[g.Intn(2)]
+			tag := 400 + g.Intn(56)
+			if g.Chance(0.25) {
+				tag = g.Intn(400)
+			}
+			date := 1700000000000 + int64(g.Intn(100000000))
+			ops = append(ops, fmt.Sprintf("a:%s:%d:%d:%d", vh.HS(mb), date, tag, len(buildRaw(tag))))
+			adds[mb]++
+			if g.Chance(0.4) {
+				ops = append(ops, fmt.Sprintf("r:GET:0:%s:%s:tl0:%s:%s", vh.HS(mb), vh.HS("k0"), vh.HS("0"), vh.HS("a.bin")))
+			}
+		}
+		for _, mb := range mbs {
+			ops = append(ops, fmt.Sprintf("r:GET:0:%s:%s:tl0:%s:%s", vh.HS(mb), vh.HS("k0"), vh.HS("0"), vh.HS("a.bin")))
+			ops = append(ops, fmt.Sprintf("c:list:%s:%s", vh.HS(mb), vh.HS("k0")))
+			for k := 0; k < adds[mb]; k++ {
+				id := vh.HS(fmt.Sprintf("k%d", k))
+				switch g.Intn(4) {
+				case 0:
+					ops = append(ops, fmt.Sprintf("r:GET:1:%s:%s:tl0:%s:%s", vh.HS(mb), id, vh.HS("0"), vh.HS("a.bin")))
+				case 1:
+					ops = append(ops, fmt.Sprintf("c:get:%s:%s", vh.HS(mb), id))
+				case 2:
+					ops = append(ops, fmt.Sprintf("r:GET:3:%s:%s:tl0:%s:%s", vh.HS(mb), id, vh.HS("0"), vh.HS("a.bin")))
+				default:
+					ops = append(ops, fmt.Sprintf("c:hget:%s:%d", vh.HS(mb), k))
+				}
+			}
+		}
+		for _, st := range []string{"mem", "file"} {
+			g.Emit("hist", st, "local", vh.HS(""), strings.Join(ops, ","))
+		}
+	}
+}
+
 func gen(g *vh.Gen) {
 	genAttach(g)
+	genMeta(g)
 	genAsm(g)
 	genGone(g)
 	n := g.N(300, 10000)
@@ -308,7 +359,7 @@ func gen(g *vh.Gen) {
 			naming, pool = "full", poolFull
 		}
 		base := g.Pick("", "", "pre", "/pre/", "a/b")
-		h := &hgen{g: g, naming: naming, pool: pool, adds: map[string]int{}, slash: g.Chance(0.1)}
+		h := &hgen{g: g, naming: naming, pool: pool, adds: map[string]int{}, slash: g.Chance(0.1), shapes: true}
 		nops := 4 + g.Intn(30)
 		for j := 0; j < nops; j++ {
 			switch {
